@@ -32,8 +32,8 @@ Proof.
       unfold outs in *. destruct (step_bind _ _ _ _ _ _) as [[w r] p2]. cbn [fst] in *.
       apply (Hn (c_resource cfg) (p_packet_id (clear_sm p) + 1)).
       rewrite reqs_app. apply in_or_app. right. rewrite Hw. left. reflexivity.
-  - intros _ Hn. exfalso. destruct (bind_emits cfg c p f s sn) as [w' Hw].
-    apply (Hn (c_resource cfg) (p_packet_id p + 1)). rewrite Hw. left. reflexivity.
+  - intros _ Hn. exfalso. destruct (bind_emits cfg c (if f_sm f then p else clear_sm p) f s sn) as [w' Hw].
+    apply (Hn (c_resource cfg) (p_packet_id (if f_sm f then p else clear_sm p) + 1)). rewrite Hw. left. reflexivity.
 Qed.
 
 Lemma auth_nobind cfg c p f s sn :
